@@ -104,8 +104,9 @@ func main() {
 	var jobs []job
 	if wantGroup(c, "ecdsa") {
 		jobs = append(jobs, ecdsaJobs[emulated.Secp256k1Fp, emulated.Secp256k1Fr](c, crvSecp, !q, nativeSecp)...)
+		// the NIST curves take the code path without endomorphism: in quick only the valid / crafted cases
+		jobs = append(jobs, ecdsaJobs[emulated.P256Fp, emulated.P256Fr](c, crvP256, false, nativeNIST(elliptic.P256(), crvP256))...)
 		if !q {
-			jobs = append(jobs, ecdsaJobs[emulated.P256Fp, emulated.P256Fr](c, crvP256, false, nativeNIST(elliptic.P256(), crvP256))...)
 			jobs = append(jobs, ecdsaJobs[emulated.P384Fp, emulated.P384Fr](c, crvP384, false, nativeNIST(elliptic.P384(), crvP384))...)
 		}
 	}
